@@ -1,4 +1,5 @@
 """C14 - Tracks and compositions accumulate music faithfully (containers/track.py, composition.py, instrument.py)."""
+import copy
 import itertools
 from fractions import Fraction as Fr
 
@@ -472,9 +473,25 @@ def check_composition(ctx, case):
                               lambda: "tracks %d and %d hold the same %s object %r, which the caller did not hand in (ops %r)" % (
                                   j, i, type(o).__name__, o, ops))
     ctx.check(comp == comp, "composition/equals-itself", "")
+    # equality follows the contents: a separately built composition holding equal tracks is equal, one that differs in one
+    # entry, or holds one track less, is not
+    twin = Composition()
+    for t in tracks:
+        twin.add_track(copy.deepcopy(t))
+    eq, ne = ctx.ok("==", lambda: comp == twin), ctx.ok("!=", lambda: comp != twin)
+    ctx.check(eq is True and ne is False, "composition/equality/equal-content",
+              lambda: "two compositions with equal tracks: == gives %r, != gives %r" % (eq, ne))
     if tracks:
         other = Composition()
         ctx.check(not (comp == other), "composition/equals-empty", "")
+        filled = [t for t in twin.tracks if any(len(b.bar) for b in t.bars)]
+        if filled:
+            [b for b in filled[-1].bars if len(b.bar)][-1].bar[-1][2] = NoteContainer("C-1")
+            ctx.check((comp == twin) is False and (comp != twin) is True, "composition/equality/one-entry-differs", repr(ops[-3:]))
+        shorter = Composition()
+        for t in tracks[:-1]:
+            shorter.add_track(copy.deepcopy(t))
+        ctx.check((comp == shorter) is False and (comp != shorter) is True, "composition/equality/one-track-less", repr(ops[-3:]))
     ctx.note_case(len(tracks) >= 2 and bool(flags), ["composition:%d-tracks" % len(tracks)] + ["composition:" + f for f in sorted(flags)])
 
 
